@@ -293,6 +293,7 @@ func genStructCases(o *hx.Out, rng *hx.Rng, exh, nvals, nmut int) {
 
 func genVerifierCases(o *hx.Out, rng *hx.Rng, n int) {
 	put := func(f string, a map[string]string) { o.Put(runV(f, a)) }
+	o.Put(runDownloader("empty-lists"))
 	// ---- constructors on generated / truncated / mutated bytes
 	for _, pair := range [][2]string{{"NewBlock", "pkg/blockchain.RawBlock"}, {"NewBlockHeader", "pkg/blockchain.BlockHeader"},
 		{"NewTransaction", "pkg/blockchain.Transaction"}, {"NewBlockAsset", "pkg/blockchain.BlockAsset"},
@@ -604,7 +605,11 @@ func main() {
 				if err := json.Unmarshal([]byte(line), &r); err != nil {
 					panic(err)
 				}
-				o.Put(runV(r.F, r.A))
+				if r.F == "sync.Downloader" {
+					o.Put(runDownloader(r.A["peer"]))
+				} else {
+					o.Put(runV(r.F, r.A))
+				}
 			default:
 				panic("unknown record kind " + k.K)
 			}
